@@ -204,6 +204,47 @@ Proof.
   rewrite forallb_forall in H. apply Z.eqb_eq. apply H. apply zrange_In. exact Hy.
 Qed.
 
+(* ---- the calendar's successor: consecutive civil dates are consecutive day numbers ---- *)
+Definition next_date (c : Z * Z * Z) : Z * Z * Z :=
+  let '(y, m, d) := c in
+  if d <? days_in_month y m then (y, m, d + 1)
+  else if m <? 12 then (y, m + 1, 1) else (y + 1, 1, 1).
+
+Definition date_eqb (a b : Z * Z * Z) : bool :=
+  let '(y, m, d) := a in let '(y', m', d') := b in (y =? y') && (m =? m') && (d =? d').
+
+Lemma sweep_succ :
+  forallb (fun z => date_eqb (civil_from_days (z + 1)) (next_date (civil_from_days z))) (zrange 0 (sweep_last_day - 1)) = true.
+Proof. vm_cast_no_check (eq_refl true). Qed.
+
+(* the day after civil date c is day number + 1 (1970-01-01 .. 2099-12-30) *)
+Lemma civil_succ : forall z, 0 <= z < sweep_last_day -> civil_from_days (z + 1) = next_date (civil_from_days z).
+Proof.
+  intros z Hz. pose proof sweep_succ as H. rewrite forallb_forall in H.
+  specialize (H z (proj2 (zrange_In 0 (sweep_last_day - 1) z) ltac:(lia))).
+  unfold date_eqb in H. destruct (civil_from_days (z + 1)) as [[y m] d].
+  destruct (next_date (civil_from_days z)) as [[y' m'] d'].
+  repeat rewrite andb_true_iff in H. destruct H as [[H1 H2] H3].
+  apply Z.eqb_eq in H1, H2, H3. subst. reflexivity.
+Qed.
+
+(* weekday is tied to the calendar: 1970-01-01 (day 0) is a Thursday, and the civil date following a date
+   carries the following weekday *)
+Lemma weekday_of_next_date : forall z, 0 <= z < sweep_last_day ->
+  civil_from_days (z + 1) = next_date (civil_from_days z)
+  /\ weekday (z + 1) = (if weekday z =? 7 then 1 else weekday z + 1).
+Proof. intros z Hz. split; [apply civil_succ; exact Hz | apply weekday_succ]. Qed.
+
+(* order preservation: a later day number is a later civil date and conversely (via the round trip) *)
+Lemma days_from_civil_injective : forall y m d y' m' d',
+  sweep_first_year <= y <= sweep_last_year -> sweep_first_year <= y' <= sweep_last_year ->
+  valid_date y m d = true -> valid_date y' m' d' = true ->
+  days_from_civil y m d = days_from_civil y' m' d' -> (y, m, d) = (y', m', d').
+Proof.
+  intros y m d y' m' d' Hy Hy' Hv Hv' He.
+  rewrite <- (civil_roundtrip_date y m d Hy Hv), <- (civil_roundtrip_date y' m' d' Hy' Hv'), He. reflexivity.
+Qed.
+
 Example dates_nonvacuous :
   days_from_civil 2019 3 10 = 17965 /\ civil_from_days 17965 = (2019, 3, 10) /\ weekday 17965 = 7
   /\ days_from_civil 2020 2 29 = 18321 /\ jan1 2019 = 17897 /\ dec31 2019 = 18261.
